@@ -273,6 +273,15 @@ def conc_foreign(P, w):
     rows = table()
     row = rows[P['row']]
     h, L, Pb, n, name = row
+    data = bytes(w.get('data', b''))
+    if data[:len(Pb)] == Pb:
+        # a string of this kind: must be accepted and yield exactly what follows the binary prefix
+        text = _text_of(data)
+        try:
+            out = base58_decode(text)
+        except ValueError as e:
+            return {'ok': False, 'observed': f'rejected: {e}', 'text': text.decode()}
+        return {'ok': out == data[len(Pb):], 'observed': out.hex(), 'expected': data[len(Pb):].hex(), 'text': text.decode()}
     text = _foreign_text(row)
     if text is None:
         return {'ok': True, 'note': 'no real string with this prefix/length and a foreign binary prefix exists'}
